@@ -182,6 +182,14 @@ def export_record(p, sol):
         for r in sorted({r for (r, c) in icells if r > 0}):
             inds.append([icells.get((r, 0)), icells.get((r, 1))])
         ex["xlsx"] = {"resource_names": rn, "resource_items": ri, "task_names": tn, "task_items": ti, "indicators": inds}
+        # the coloured variant holds the same items (only the cell backgrounds differ)
+        xc = os.path.join(d, "c.xlsx")
+        sol.to_excel_file(xc, colors=True)
+        csheets = parse_xlsx(xc)
+        crn, cri = _sheet_items(*csheets["GANTT Resource view"])
+        ctn, cti = _sheet_items(*csheets["GANTT Task view"])
+        ex["xlsx_colors_diff"] = [k for k, a, b_ in (("resource_names", rn, crn), ("resource_items", ri, cri),
+                                                       ("task_names", tn, ctn), ("task_items", ti, cti)) if a != b_]
         return ex
     finally:
         import shutil
